@@ -1,13 +1,15 @@
 SPECIFICATION Spec
 CONSTANTS
   Writers = {1, 2, 3}
-  Readers = {4}
+  Readers = {5}
   NTxn = 1
   NReads = 1
   MCHows = {"commit", "rollback"}
-  Plans <- MCPlans
+  Plans <- MCPlansSym
   RPlans <- MCRPlans
   InitVid = 2
+  Policers = {}
+  PPlans <- MCPPlans
 INVARIANT TypeOK
 INVARIANT MutualExclusion
 INVARIANT FIFO
@@ -16,6 +18,7 @@ INVARIANT QueueWellFormed
 INVARIANT NoLostWakeup
 INVARIANT OneEventPerCall
 INVARIANT VersionsOrdered
+INVARIANT RetentionExact
 INVARIANT SerialEquivalence
 INVARIANT VersionsArePrefixes
 INVARIANT ReadersSeeCommitted
